@@ -4,11 +4,12 @@
 SD=$1; WT=/tmp/wt_base
 cd $WT && git checkout -q --detach $(git -C /repo rev-parse HEAD) 2>/dev/null && git checkout -q -- .
 pyx=$(grep -c '^+++ .*\.\(pyx\|pxi\|cc\)' $SD/patch.diff)
-d0=$(PYTHONPATH=$WT timeout 1800 /venv/bin/python $SD/demo.py >/dev/null 2>&1; echo $?)
+C0=$(mktemp -d /tmp/seedcache.XXXXXX); d0=$(XDG_CACHE_HOME=$C0 PYTHONPATH=$WT timeout 1800 /venv/bin/python $SD/demo.py >/dev/null 2>&1; echo $?)
 git apply $SD/patch.diff || { echo "$SD: patch does not apply"; exit 3; }
 if [ $pyx -gt 0 ]; then /venv/bin/python setup.py build_ext --inplace -j 8 >/tmp/wt_base.build.log 2>&1; rm -rf build; fi
 suite=$(PYTHONPATH=$WT /venv/bin/python -m pytest -q -p no:cacheprovider --timeout=900 -x 2>&1 | tail -1)
-d1=$(PYTHONPATH=$WT timeout 1800 /venv/bin/python $SD/demo.py >/dev/null 2>&1; echo $?)
+C1=$(mktemp -d /tmp/seedcache.XXXXXX); d1=$(XDG_CACHE_HOME=$C1 PYTHONPATH=$WT timeout 1800 /venv/bin/python $SD/demo.py >/dev/null 2>&1; echo $?)
 git checkout -q -- .
 if [ $pyx -gt 0 ]; then /venv/bin/python setup.py build_ext --inplace -j 8 >/tmp/wt_base.build.log 2>&1; rm -rf build; fi
 echo "$SD: demo_clean=$d0 demo_patched=$d1 suite=[$suite]"
+[ -n "$C0" ] && rm -rf "$C0"; [ -n "$C1" ] && rm -rf "$C1"
